@@ -92,6 +92,12 @@ func loadOne(p *run.Part, prop string, cfg *seqx.Config, lc loadCase) {
 			p.Violate("load", "C09:rebuild-entries:"+lc.Loader, fmt.Sprintf("%s: holds %s, original %s", desc, short(w, hashesOf(got.Values().Slice())), short(w, orig)), lc)
 			return
 		}
+		for _, e := range got.GetEntries().Slice() {
+			if o, ok := l.Get(e.GetHash()); ok && seqx.DumpEntry(e) != seqx.DumpEntry(o) {
+				p.Violate("load", "C09:rebuild-entry-content:"+lc.Loader, fmt.Sprintf("%s: rebuilt entry differs from the original:\n  rebuilt  %s\n  original %s", desc, seqx.DumpEntry(e), seqx.DumpEntry(o)), lc)
+				return
+			}
+		}
 		if !eqStrings(sortedStrings(hashesOf(got.Heads().Slice())), sortedStrings(hashesOf(heads))) {
 			p.Violate("load", "C09:rebuild-heads:"+lc.Loader, fmt.Sprintf("%s: heads %s, original %s", desc, short(w, hashesOf(got.Heads().Slice())), short(w, hashesOf(heads))), lc)
 			return
